@@ -459,11 +459,11 @@ func init() {
 	register(&PropSpec{
 		ID:          "C18",
 		Level:       "other",
-		Decided:     "for the three pull decoders: (b) every path of Next that returns io.EOF, or the reader's error without having excluded io.EOF, passes through the parser's end-of-input check (a stream ending inside a value cannot be reported as a clean end); (c) the reader's error is returned only after n == 0 was established (data delivered together with an error is processed first); (d) Read is never handed a slice the path has just found empty (no zero-length read loop); (e) the window is advanced by exactly the count feedUntil reported before Next returns or feeds again; (a) the shared finalisers exist, can fail, and are reached by every one-shot entry point.",
+		Decided:     "for the three pull decoders: (b) every path of Next that returns io.EOF, or the reader's error without having excluded io.EOF, passes through the parser's end-of-input check (a stream ending inside a value cannot be reported as a clean end); (c) the reader's error is returned only after n == 0 was established (data delivered together with an error is processed first); (d) Read is never handed a slice the path has just found empty (no zero-length read loop); (e) the window is advanced by exactly the count feedUntil reported before Next returns or feeds again; (a) the shared finalisers exist, can fail, and are reached by every one-shot entry point. Because a reader may return any read sizes, the chunk-resumption rules are necessary conditions here too: an incomplete token leaves the machine where it was (R3), byte accounting of parked input is exact (R22), nothing irreversible precedes a possibly-incomplete collect, a suspension after a state change continues where the re-entry starts, window indices are translated consistently (R24).",
 		NotDecided:  "that feedUntil stops after exactly one top-level value (the reported/len(states)==0 arithmetic), the events delivered per Next, whitespace handling between JSON documents, a trailing top-level number being delivered by the call that returns io.EOF. These are value/history-level.",
 		Assumptions: []string{"the end-of-input check is the method (*Parser).finalize of each codec; io.Reader obeys its contract"},
 		TrustedBase: baseTrusted,
-		Rules:       []RuleRun{{"R8", R8("json", "cborl", "ubjson")}},
+		Rules:       []RuleRun{{"R8", R8("json", "cborl", "ubjson")}, {"R3", R3("json", "cborl", "ubjson")}, {"R22", R22("json", "cborl", "ubjson")}, {"R24", R24("parsers", "json", "cborl", "ubjson")}},
 		LevelText:   "Structural necessary conditions decided on every SSA path of the three Next implementations and nine one-shot entry points (must-pass-through and guard-fact rules obtained by cross-checking the three siblings). Reader behaviour is a schedule space no fixture enumerates; the path rules cover every read size and every position of io.EOF at once.",
 		Technique:   "must-pass-through and guard-fact path analysis on SSA (finalize before EOF, n==0 before reader error, no read into empty slice, window advance), sibling cross-check of the three decoders",
 		DesignRef:   "DESIGN.md section 2 R8, section 3 C18",
